@@ -392,7 +392,25 @@ def b_enumerate(I, args, kw):
 
 
 def b_zip(I, args, kw):
+    args = [a.as_symseq(I) if hasattr(a, "as_symseq") else a for a in args]
+    if any(isinstance(a, SymSeq) for a in args):
+        # zip with symbolic-length operands: length = the minimum, element i = the tuple of the i-th elements
+        n = None
+        getters = []
+        for a in args:
+            if isinstance(a, SymSeq):
+                ln, get = a.length, a.elem
+            else:
+                xs = list(I.iterate(a))
+                ln, get = z3.IntVal(len(xs)), (lambda xs: lambda i: xs[I.concretize(i)] if I.concretize(i) is not None else _unsup("zip index"))(xs)
+            n = ln if n is None else z3.If(ln < n, ln, n)
+            getters.append(get)
+        return SymSeq("zip", n, lambda i: tuple(g(i) for g in getters), kind="zip")
     return [tuple(x) for x in zip(*[list(I.iterate(a)) for a in args])]
+
+
+def _unsup(what):
+    raise Unsupported(what)
 
 
 def b_sorted(I, args, kw):
